@@ -70,7 +70,7 @@ def requests():
     return R
 
 
-OPS = ["scalar_add", "scalar_sub", "scalar_mul", "scalar_div", "scalar_rdiv", "q_add", "q_mul", "q_div", "array_add", "array_mul", "convert", "check_value",
+OPS = ["edit_creation_spec", "scalar_add", "scalar_sub", "scalar_mul", "scalar_div", "scalar_rdiv", "q_add", "q_mul", "q_div", "array_add", "array_mul", "convert", "check_value",
        "makecopy", "pickle", "copies", "hand_out_maps", "readonly"]
 
 
@@ -101,7 +101,7 @@ def inputs(cfg):
 
 
 def do_op(op, qa, qb, V):
-    from barril.units import Array, Scalar, UnitsError
+    from barril.units import Array, ObtainQuantity, Quantity, Scalar, UnitsError
     from barril.units._quantity import ReadOnlyError
 
     x, y = V["x"], V["y"]
@@ -148,6 +148,26 @@ def do_op(op, qa, qb, V):
                     ue[1] = 99
             qa.GetComposingUnits(), qa.GetComposingCategories(), qa.GetComposingUnitsJoiningExponents(), qa.GetUnitName() if qa.GetCategory() != "" or True else None
             return None
+        if op == "edit_creation_spec":
+            # the caller keeps and later edits the very containers it passed to the creation routes
+            made = []
+            spec = _od(("length", "m", 1), ("time", "s", -1))
+            made.append((Quantity.CreateDerived(spec), spec))
+            spec2 = _od(("mass", "kg", 1), ("time", "s", -2))
+            made.append((ObtainQuantity(spec2), spec2))
+            lst = [["m", 3], ["s", -1]]
+            made.append((ObtainQuantity(lst, ["length", "time"]), lst))
+            spec3 = _od(("length", "cm", 2), ("time", "s", -1))
+            made.append((qa.MakeCopy(spec3), spec3))
+            snaps = [snap_quantity(q) for q, _ in made]
+            for _q, sp in made:
+                for ue in (sp.values() if hasattr(sp, "values") else sp):
+                    ue[1] = ue[1] - 5
+                    ue[0] = "km" if ue[0] != "s" else "h"
+            again = [Quantity.CreateDerived(_od(("length", "m", 1), ("time", "s", -1))), ObtainQuantity(_od(("mass", "kg", 1), ("time", "s", -2))),
+                     ObtainQuantity([("m", 3), ("s", -1)], ["length", "time"]), qa.MakeCopy(_od(("length", "cm", 2), ("time", "s", -1)))]
+            same = all(snap_quantity(q) == s0 for (q, _), s0 in zip(made, snaps)) and all(a is q for a, (q, _) in zip(again, made))
+            return "spec-ok" if same else "spec-aliased"
         if op == "readonly":
             try:
                 qa.SetUnknownCaption("zzz")
@@ -207,6 +227,8 @@ def run(cfg, V):
                 obs["results"].append(("makecopy", all(g == want for g in got) and all(c is qa for c in r[2:])))
             elif op == "readonly":
                 obs["results"].append(("readonly", r == "readonly-ok"))
+            elif op == "edit_creation_spec":
+                obs["results"].append(("edit_creation_spec", r == "spec-ok"))
             elif isinstance(r, str) and r.startswith("exc:"):
                 obs["results"].append((op, r))
             else:
@@ -223,8 +245,10 @@ def props(cfg, T, obs):
          ("== / != / hash follow the resolution: equal iff same map and caption", obs["eq"] == obs["want_eq"] and obs["ne"] == (not obs["want_eq"])
           and (obs["hash_eq"] or not obs["want_eq"]))]
     for name, ok in obs["results"]:
-        if name in ("pickle", "copies", "makecopy", "readonly"):
+        if name in ("pickle", "copies", "makecopy", "readonly", "edit_creation_spec"):
             P.append(("%s behaves as an immutable value" % name, ok is True))
+        elif isinstance(ok, str) and ok in ("exc:TypeError", "exc:KeyError", "exc:AssertionError") and name.startswith(("scalar_", "array_", "q_")):
+            P.append(("arithmetic on obtained quantities raises only units errors / ZeroDivisionError / ValueError (%s)" % name, False))
     if cfg.get("canary"):
         P.append(("canary:m and s quantities are equal", bool(obs["eq"])))
     return P
